@@ -4,7 +4,7 @@
                      / "ORIG newid id-in-the-shared-table"
    <inputs>: lines   "gid hex hex ..."   ("-" = empty input)
    prints per grammar
-     MTOT gid <problems table>                                   (C11_model.problems: every entry as a root)
+     MTOT gid <problems table> <table_shape_ok>                  (C11_model.problems: every entry as a root; the shape hypothesis of C11_sound)
      MENT gid n k <kind 0..3 = any opt seq sor> <problems from this root> <consumes> | n1 k1 n2 k2 ...
      MRUN gid <one letter per input: T F X (exception) R (out of fuel) E (Err)>
    Hand-written glue (trusted): number conversion, table parsing, printing. *)
@@ -122,7 +122,7 @@ let () =
                     | _ -> ARet true);
                 has_unwind = (fun _ -> false); raise_on_failure = (fun _ _ -> false) } in
     let g = List.init n (fun i -> try Hashtbl.find nodes i with Not_found -> failwith ("missing node " ^ string_of_int i)) in
-    Printf.printf "MTOT %s %d\n" gid (int_of_nat (problems g));
+    Printf.printf "MTOT %s %d %d\n" gid (int_of_nat (problems g)) (if table_shape_ok g then 1 else 0);
     List.iter (fun a ->
       let (nn, k) = a in
       let e = aentry g a in
